@@ -1,3 +1,6 @@
-import GffProofs.Lemmas.SplitJoin
-open GffProofs
+import GffProofs.Props.C07
+open GffProofs GffProofs.C07
 #print axioms split_join
+#print axioms infer_render
+#print axioms reconstruct_render
+#print axioms print_parse_render_attrs
